@@ -8,3 +8,5 @@ for _m in ("c_den", "c_backends", "c_ode", "c_sympytools", "c_expressions", "c_c
         if _m not in str(e):
             raise
 from . import lemmas  # noqa: F401,E402
+from .c_base import finalize_enums2 as _fin  # noqa: E402
+_fin()
